@@ -99,7 +99,14 @@ def send(peer, target_ip: str, sw_type: str) -> Optional[bool]:
             connection_request_uuid="c13-req",
         )
         return _raw(peer, target_ip, pkt, PORT_LOOKUP["SSH"], TCP)
-    if sw_type in ("c2-server", "c2-beacon"):
+    if sw_type == "c2-beacon":
+        # in protocol a beacon only ever hears from the C2 server it has connected to: the peer's c2-server sends it a command
+        # (refused by the server itself, i.e. nothing is sent, while no beacon has connected)
+        if "c2-server" not in peer.software_manager.software:
+            return False
+        r = peer.apply_request(["application", "c2-server", "ransomware_launch"])
+        return r.status == "success" or "no response" in str(r.data)
+    if sw_type == "c2-server":
         from primaite.simulator.network.protocols.masquerade import C2Packet
         from primaite.simulator.system.applications.red_applications.c2.abstract_c2 import C2Payload
 
